@@ -478,6 +478,26 @@ func rulePlayLoop(c *Ctx) {
 			}
 		}
 		c.check(len(missing) == 0, fname(nf)+"|copy-settings", c.pos(nf.Pos()), fname(nf), "every setting of the input instance is carried over", fmt.Sprintf("%s: field(s) %v of the input instance are not copied into the instance that is played: the setting is silently dropped", fname(nf), missing))
+		// ... and stays: nothing here writes those settings again (the flags do, for the first instance, inside the override)
+		c.site(1)
+		rewritten := ""
+		allInstrs(nf, func(in ssa.Instruction) {
+			st, ok := in.(*ssa.Store)
+			if !ok {
+				return
+			}
+			n, base, ok := fieldName(st.Addr)
+			if !ok || typeName(base.Type()) != "op.Instance" {
+				return
+			}
+			switch n {
+			case "Values", "BPM", "Velocity", "Meter", "Key", "Meta":
+				if ln, _, ok := loadedField(st.Val); !ok || ln != n {
+					rewritten = n
+				}
+			}
+		})
+		c.check(rewritten == "", fname(nf)+"|settings-kept", c.pos(nf.Pos()), fname(nf), "the copied settings are not written again", fmt.Sprintf("%s: the %s of the instance that is played is overwritten after it was copied from the input (dropped or replaced under some condition): what the instance says is not what is played", fname(nf), rewritten))
 		// ... and that instance - after the flags had their say - is what is kept, at its own position
 		c.site(1)
 		var built *ssa.Alloc // the op.Instance the settings are copied into
@@ -1106,6 +1126,54 @@ func ruleOpt(c *Ctx) {
 			}
 		}
 		c.check(problem == "", fname(ww)+"|key", c.pos(kc.Pos()), fname(ww), "key cell -> Key(tonic semitone, !Minor, Flat+Sharp, Flat>0)", fname(ww)+": "+problem)
+		// ... for every key that comes out of the cell: only the failure of building the scale stands in front of the event
+		if krc != nil {
+			c.site(1)
+			extra := ""
+			for _, g := range guardsAlong(linstr{krc.call, krc.chain}, 0) {
+				cmp, isCmp := tr.trace(g.cond).v.(*ssa.BinOp)
+				if isCmp && (cmp.Op == token.EQL || cmp.Op == token.NEQ) && (isNilConst(cmp.X) || isNilConst(cmp.Y)) {
+					if isErrorType(cmp.X.Type()) || isErrorType(cmp.Y.Type()) {
+						continue
+					}
+				}
+				extra = "a condition other than `the scale could be built` decides whether the key signature event is written (`" + g.cond.v.String() + "`)"
+			}
+			// ... and no way round it: within the function that makes the call, every return that is not the failure exit
+			// of an error test comes after the call
+			if extra == "" {
+				kfn := krc.call.Parent()
+				failure := map[*ssa.BasicBlock]bool{}
+				for _, b := range kfn.Blocks {
+					iff, ok := b.Instrs[len(b.Instrs)-1].(*ssa.If)
+					if !ok {
+						continue
+					}
+					cmp, ok := iff.Cond.(*ssa.BinOp)
+					if !ok || !(isNilConst(cmp.X) || isNilConst(cmp.Y)) || !(isErrorType(cmp.X.Type()) || isErrorType(cmp.Y.Type())) {
+						continue
+					}
+					side := b.Succs[0]
+					if cmp.Op == token.EQL {
+						side = b.Succs[1]
+					}
+					for _, x := range kfn.Blocks {
+						if x == side || side.Dominates(x) {
+							failure[x] = true
+						}
+					}
+				}
+				for _, b := range kfn.Blocks {
+					if _, isRet := b.Instrs[len(b.Instrs)-1].(*ssa.Return); !isRet || failure[b] || b == krc.call.Block() {
+						continue
+					}
+					if reachesAvoiding(kfn.Blocks[0], b, krc.call.Block()) {
+						extra = "there is a way to the end of the update that passes neither the key signature event nor a failed step (" + c.pos(b.Instrs[len(b.Instrs)-1].Pos()) + ")"
+					}
+				}
+			}
+			c.check(extra == "", fname(ww)+"|key|guard", c.pos(krc.call.Pos()), fname(ww), "every key out of the cell is written", fname(ww)+": "+extra+": some key changes leave the old signature standing in the file")
+		}
 	} else {
 		c.bad(fname(ww)+"|key", c.pos(ww.Pos()), fname(ww), "the key cell is not wired to Writer.Key")
 	}
@@ -1147,6 +1215,29 @@ func ruleOpt(c *Ctx) {
 					}
 					if !own {
 						extra = "a condition other than `its own text is not empty` decides whether the event is written"
+					}
+				}
+				// ... and no way round the event other than `its own text is empty`
+				if extra == "" {
+					own := ci.Common().Args[0]
+					if b := bypassReturn(ci.Parent(), ci.Block(), func(iff *ssa.If) int {
+						cmp, ok := iff.Cond.(*ssa.BinOp)
+						if !ok || (cmp.Op != token.NEQ && cmp.Op != token.EQL) {
+							return -1
+						}
+						x, y := cmp.X, cmp.Y
+						if _, isK := x.(*ssa.Const); isK {
+							x, y = y, x
+						}
+						if k, isK := y.(*ssa.Const); !isK || k.Value == nil || k.Value.ExactString() != `""` || x != own {
+							return -1
+						}
+						if cmp.Op == token.NEQ {
+							return 1 // the false edge: text empty
+						}
+						return 0
+					}); b != nil {
+						extra = "there is a way to the end of the update that passes the event by although its text is not empty"
 					}
 				}
 				c.check(extra == "", fname(ww)+"|meta|"+meth+"|guard", c.pos(ci.Pos()), fname(ww), meth+" is written whenever its text is not empty", fmt.Sprintf("%s: the %s event: %s (e.g. it is skipped when the instance also carries another kind of text)", fname(ww), meth, extra))
